@@ -26,8 +26,6 @@ def leAt (m : Img) (off width : Nat) : Nat := leDec (slice m off width)
 
 def inFile (m : Img) (off len : Nat) : Bool := off + len ≤ m.size
 
-abbrev FsmHdr := FormatEnc.FsmHdr
-
 /-- a node: its record, the header and index of its data block, and the records it holds -/
 structure Sblk extends SblkRec, KvIndex where
   blk : Nat              -- block number of the node record
@@ -85,42 +83,46 @@ def sblkErr (m : Img) (blk : Nat) : String :=
   else if lkl > Gen.PREFIX_KEY_LEN_V2 then s!"node {blk}: lkl {lkl}"
   else s!"node {blk}: pnum {pnum}"
 
-def parseSblk (m : Img) (blk : Nat) : Except String Sblk := do
+def parseSblk (m : Img) (blk : Nat) : Except String Sblk :=
   let a := blk * bs
-  if !inFile m a Gen.SBLK_SZ then throw s!"node record {blk} outside the file"
+  if !inFile m a Gen.SBLK_SZ then .error s!"node record {blk} outside the file" else
   match decSblk (slice m a Gen.SBLK_SZ) with
-  | none => throw (sblkErr m blk)
+  | none => .error (sblkErr m blk)
   | some r =>
     let ka := r.kblk * bs
-    if !inFile m ka Gen.KVBLK_HDRSZ then throw s!"node {blk}: data block {r.kblk} outside the file"
+    if !inFile m ka Gen.KVBLK_HDRSZ then .error s!"node {blk}: data block {r.kblk} outside the file" else
     let szpow := byteAt m ka
-    if szpow > 40 ∨ !inFile m ka (2 ^ szpow) then throw s!"node {blk}: data block of 2^{szpow} bytes outside the file"
+    if szpow > 40 ∨ !inFile m ka (2 ^ szpow) then .error s!"node {blk}: data block of 2^{szpow} bytes outside the file" else
     match decKvIndexE (slice m ka kvIndexMax) with
-    | .error (.slot .off) => throw "bad slot offset"
-    | .error (.slot .len) => throw "bad slot length"
-    | .error (.size idxsz occ) => throw s!"node {blk}: index size field {idxsz} but index occupies {occ}"
+    | .error (.slot .off) => .error "bad slot offset"
+    | .error (.slot .len) => .error "bad slot length"
+    | .error (.size idxsz occ) => .error s!"node {blk}: index size field {idxsz} but index occupies {occ}"
     | .ok ki =>
-      let recs ← parseRecs m blk ka ki r.pi
-      return { toSblkRec := r, toKvIndex := ki, blk, recs }
+      match parseRecs m blk ka ki r.pi with
+      | .error e => .error e
+      | .ok recs => .ok { toSblkRec := r, toKvIndex := ki, blk, recs }
 
 def parseChain (m : Img) : Nat → Nat → List Sblk → Except String (List Sblk)
   | 0, blk, _ => if blk = 0 then .ok [] else .error "level-0 chain longer than the file can hold (cycle?)"
   | fuel + 1, blk, acc =>
     if blk = 0 then .ok acc.reverse
-    else do
-      let s ← parseSblk m blk
-      match s.n with
-      | nx :: _ => parseChain m fuel nx (s :: acc)
-      | [] => .error "node without links"
+    else
+      match parseSblk m blk with
+      | .error e => .error e
+      | .ok s =>
+        match s.n with
+        | nx :: _ => parseChain m fuel nx (s :: acc)
+        | [] => .error "node without links"
 
-def parseDb (m : Img) (blk : Nat) : Except String DbImg := do
+def parseDb (m : Img) (blk : Nat) : Except String DbImg :=
   let a := blk * bs
-  if !inFile m a Gen.DOFF_END then throw s!"database block {blk} outside the file"
+  if !inFile m a Gen.DOFF_END then .error s!"database block {blk} outside the file" else
   match decDbHdr (slice m a Gen.DOFF_END) with
-  | none => throw s!"database block {blk}: bad magic"
+  | none => .error s!"database block {blk}: bad magic"
   | some h =>
-    let nodes ← parseChain m (m.size / Gen.SBLK_SZ + 1) (h.n.headD 0) []
-    return { toDbHdr := h, blk, nodes }
+    match parseChain m (m.size / Gen.SBLK_SZ + 1) (h.n.headD 0) [] with
+    | .error e => .error e
+    | .ok nodes => .ok { toDbHdr := h, blk, nodes }
 
 def parseDbs (m : Img) : Nat → Nat → List DbImg → Except String (List DbImg)
   | 0, blk, acc => if blk = 0 then .ok acc.reverse else .error "database chain too long (cycle?)"
@@ -267,6 +269,28 @@ def dumpDb (d : DbImg) : String :=
     | none => " ?")
 
 def metaOf (m : Img) (d : DbImg) (n : Nat) : Bytes := slice m (d.metaBlk * bs) (min n (d.metaBlkn * bs))
+
+/-! ### The writer: a database image as the list of stores that put it into a file
+
+`dbWrites` lists what the C code has written when a database with these nodes is on disk: the
+database block (`_db_save`, database branch of `_sblk_sync_mm`), the metadata, and per node the
+stores of `_sblk_sync_mm`, the data-block header + index of `_kvblk_sync_mm` and one record per
+live slot at `block_end - off` (`_kvblk_addkv`). Addresses come from the image itself (`blk`, `kblk`,
+`metaBlk`, slot offsets): that is the layout. -/
+
+def shift (base : Nat) (ws : List (Nat × Bytes)) : List (Nat × Bytes) := ws.map fun w => (base + w.1, w.2)
+
+def recWrites (s : Sblk) : List (Nat × Bytes) :=
+  (s.pi.zip s.recs).map fun x => (s.kblk * bs + 2 ^ s.szpow - (s.slots.getD x.1 (0, 0)).1, encKv x.2.1 x.2.2)
+
+def nodeWrites (s : Sblk) : List (Nat × Bytes) :=
+  shift (s.blk * bs) (sblkWrites s.toSblkRec) ++ (s.kblk * bs, encKvIndex s.toKvIndex) :: recWrites s
+
+def dbWrites (d : DbImg) (mdata : Bytes) : List (Nat × Bytes) :=
+  (d.blk * bs, encDbHdr d.toDbHdr) :: (d.metaBlk * bs, mdata) :: d.nodes.flatMap nodeWrites
+
+/-- the file after the database has been written over `old` -/
+def writeDb (old : Bytes) (d : DbImg) (mdata : Bytes) : Bytes := pokes old (dbWrites d mdata)
 
 /-! ### Re-encoding (`drv fmt reenc`): the encoders of Model/FormatEnc.lean against the bytes of a real file -/
 
